@@ -295,11 +295,11 @@ def gen_merge(rng):
             "deps": gen_deps_small(rng)}
 
 
-RF_PRODUCTS = ["a", "b", "c", "d", "tcltk", "verbose", "[x]", "p=q", "a]"]
+RF_PRODUCTS = ["a", "b", "c", "d", "tcltk"] * 4 + ["verbose", "[x]", "p=q", "a]"]
 RF_INV = ["", "", ":1", ":2", ":3", ":any", ":Any", ":*", ":", ":1:2", ":none"]
-RF_OUT = ["1", "2", "3", "9", "None", "none", "any", "dummy", "e:2", "e:dummy", "e:", "e:None", "b:1", "a:1:2",
-          "noReinstall", "e:NOREINSTALL", "Any"]
-RF_FLAVOR = ["", "", "", "generic", "Linux64", "Darwin", "Linux64 extra"]
+RF_OUT = ["1", "2", "3", "9", "None", "none", "any", "dummy", "dummy", "e:2", "e:dummy", "e:dummy", "b:dummy", "e:", "e:None",
+          "b:1", "a:1:2", "noReinstall", "e:NOREINSTALL", "Any"]
+RF_FLAVOR = ["", "", "", "", "", "generic", "Linux64", "Linux64", "Darwin", "Linux64 extra"]
 RF_PREFIX = ["", "", "", "", "[create]", "[create] ", "[create]\t", "[install]", "[ create ]", "[create", "[]", "[c]x]"]
 RF_SEP = [" ", "  ", "\t", "    ", " \t", "\x0b", "\x1c"]
 RF_OTHER = ["", "   ", "# a comment", "  # indented", "#", "verbose=1", "verbose = True", " verbose=0 trailing",
@@ -307,8 +307,8 @@ RF_OTHER = ["", "   ", "# a comment", "  # indented", "#", "verbose=1", "verbose
             ":1 2", "a :1", "a 2:", "a :2", "a\t:", "x#y 1", "a:1 2#c", "a:1#c 2", "\x0ba:3 9\x0c"]
 
 
-def gen_remap_line(rng):
-    if rng.random() < 0.22:
+def gen_remap_line(rng, mode=None):
+    if rng.random() < 0.2:
         return rng.choice(RF_OTHER)
     sep = rng.choice(RF_SEP)
     fields = [rng.choice(RF_PRODUCTS) + rng.choice(RF_INV)]
@@ -318,7 +318,14 @@ def gen_remap_line(rng):
         fl = rng.choice(RF_FLAVOR)
         if fl:
             fields.append(fl)
-    line = rng.choice(RF_PREFIX) + sep.join(fields)
+    r = rng.random()
+    if mode and r < 0.55:
+        prefix = "[%s]" % mode + rng.choice(["", "", " ", "\t"])
+    elif not mode and r < 0.55:
+        prefix = ""
+    else:
+        prefix = rng.choice(RF_PREFIX)
+    line = prefix + sep.join(fields)
     r = rng.random()
     if r < 0.1:
         line += rng.choice(["  # tail", "#tail", " #", "\t# x # y"])
@@ -327,22 +334,23 @@ def gen_remap_line(rng):
     return line
 
 
-def gen_remap_text(rng):
-    lines = [gen_remap_line(rng) for _ in range(rng.choice([0, 1, 1, 2, 3, 4, 6]))]
+def gen_remap_text(rng, mode=None):
+    lines = [gen_remap_line(rng, mode) for _ in range(rng.choice([0, 1, 2, 2, 3, 4, 6, 8]))]
     nl = rng.choice(["\n", "\n", "\n", "\r\n", "\r"])
     return nl.join(lines) + (nl if rng.random() < 0.8 else "")
 
 
 def gen_rfile(rng):
-    texts = [gen_remap_text(rng)]
+    mode = rng.choice([None, None, None, "create", "create", "install", ""])
+    texts = [gen_remap_text(rng, mode)]
     r = rng.random()
     if r < 0.35:
-        texts.append(gen_remap_text(rng))
+        texts.append(gen_remap_text(rng, mode))
     elif r < 0.45:
         texts.insert(rng.choice([0, 1]), None)          # a directory without manifest.remap
     extra = gen_rows(rng, "free") if rng.random() < 0.5 else []
-    deps = gen_deps_small(rng, prods=("a", "b", "c", "d", "e", "tcltk"), vers=("1", "2", "3", "9"))
-    return {"kind": "rfile", "texts": texts, "mode": rng.choice([None, None, "create", "create", "install", ""]),
+    deps = gen_deps_small(rng, prods=("a", "b", "c", "d", "e", "tcltk"), vers=("1", "2", "3"))
+    return {"kind": "rfile", "texts": texts, "mode": mode,
             "extra": extra, "fl": rng.choice(["Linux64", "Linux64", "generic", "Darwin"]), "deps": deps,
             "known": sorted(set(rng.choice(["e", "b", "tcltk"]) for _ in range(rng.choice([0, 0, 1, 2]))))}
 
